@@ -148,7 +148,7 @@ PROPS['C08'] = {
                'ERROR-CODE class/number arithmetic on all 65536 byte pairs; ErrorCode::new accepts exactly 300..=699', 'check_len for all lengths and range shapes',
                '(Verus, unit attrs, value strings of ANY length) USERNAME / REALM / NONCE / SOFTWARE / ALTERNATE-DOMAIN: accepted <=> type code, length limit (513 / 763 / none), valid UTF-8; the text encodes to exactly the value bytes. ERROR-CODE: accepted <=> 4..=767 bytes, class 3..6, number <= 99, UTF-8 reason; code and reason exposed. PASSWORD-ALGORITHM(S): accepted <=> positive multiple of 4, every entry algorithm 1|2 with empty parameters; list exposed in order. PRIORITY, USE-CANDIDATE, ICE-CONTROLLED/-CONTROLLING, USERHASH, MESSAGE-INTEGRITY(-SHA256) also in Verus; wrong type => WrongAttributeImplementation',
                '(Verus, unit writers) ERROR-CODE encodes as 00 00 class=code/100 number=code%100 + UTF-8 reason; UNKNOWN-ATTRIBUTES as the listed types, 16 bits big-endian, in order (list of ANY length); PASSWORD-ALGORITHMS as (algorithm, 0) entries in order (list of ANY length); length() of the three under the no-overflow type invariant len_ok',
-               '(Verus, unit attrs, spec level over the two contracts) decode(encode(v)) = v: theorem_text_roundtrip for the five text attributes (the raw form of every in-limit text satisfies the decoder acceptance condition, and any result the decoder may return for it is the original text - UTF-8 encoding is injective), theorem_error_code_roundtrip for ERROR-CODE (codes 300..=699, reasons up to 763 bytes), theorem_u32_roundtrip / theorem_u64_roundtrip (unit writers) for PRIORITY and ICE-CONTROLLED/-CONTROLLING; getters of every Verus-decoded type return the decoded field',
+               '(Verus, unit attrs, spec level over the two contracts) decode(encode(v)) = v: theorem_text_roundtrip for the five text attributes (the raw form of every in-limit text satisfies the decoder acceptance condition, and any result the decoder may return for it is the original text - UTF-8 encoding is injective), theorem_error_code_roundtrip for ERROR-CODE (codes 300..=699, reasons up to 763 bytes), theorem_u32_roundtrip / theorem_u64_roundtrip (unit writers) for PRIORITY and ICE-CONTROLLED/-CONTROLLING, theorem_password_algorithms_roundtrip + lemma_algos_entry (the written list satisfies the decoder acceptance condition and its k-th wire entry names the k-th algorithm); getters of every Verus-decoded type return the decoded field',
                '(Verus) encode side within reach: RawAttribute::new; USERNAME/REALM/NONCE/SOFTWARE get_type, length() == UTF-8 byte length, to_raw() carries the type code and exactly the UTF-8 bytes, getters return the text'],
     'bounded': ['(in-place writers of 15 types + raw attributes and to_raw of the 8 variable-length types are proved in units writers / attrs, see C12) constructors X::new(&str) (vstd specifies str::len only for ASCII): BX; UNKNOWN-ATTRIBUTES decoder (chunks_exact iterator): Kani bounded (values of 0..=8 bytes) + BX, all lengths 0..=800 with ASCII / multi-byte UTF-8 / invalid UTF-8 fillers'],
     'trusted': _KX_TRUST,
